@@ -68,6 +68,14 @@ def run_impl(wd, cases, tag='impl', timeout_ms=10000):
     return out
 
 
+def _big_stack():
+    import resource
+    try:
+        resource.setrlimit(resource.RLIMIT_STACK, (resource.RLIM_INFINITY, resource.RLIM_INFINITY))
+    except Exception:
+        pass
+
+
 def run_model(wd, which, cases, impl=None, jobs=14):
     """which: 'model' | 'spec' | 'mon' (mon takes the implementation outputs too)."""
     n = len(cases)
@@ -85,7 +93,7 @@ def run_model(wd, which, cases, impl=None, jobs=14):
             write_lines(ip, impl[a:b])
             cmd.append(ip)
         op = open(os.path.join(wd, '%s.%d.out' % (which, k)), 'w')
-        procs.append((subprocess.Popen(cmd, stdout=op, env=ENV), op, a, b, k))
+        procs.append((subprocess.Popen(cmd, stdout=op, env=ENV, preexec_fn=_big_stack), op, a, b, k))
     out = []
     for p, op, a, b, k in procs:
         rc = p.wait()
